@@ -122,6 +122,10 @@ def handle (s : V) (line : String) : V × String :=
   | ["reads", seed] =>
     let s' := { s with oob := false }
     (s', dump s' (.okI (readHash s (seed.toNat?.getD 0)).toNat))
+  | ["clonereads", _] =>
+    -- C20: the battery of clone / stored-source reads changes nothing; the flag says whether it left the region
+    let s' := { s with oob := s.cloneReadsOob }
+    (s', dump s' .ok)
   | ws =>
     match parseOp ws with
     | none => (s, "bad-op")
